@@ -100,6 +100,7 @@ P0 == [keep |-> FALSE, pctx |-> 0,
        refs |-> <<>>,    \* plain reference id -> [st, cb, g, gc, gl, ever]
        cons |-> <<>>,    \* consumer call id -> record (Wait, Resolve, ResolveWithReleased, Access)
        zero |-> {},      \* resolver calls whose value is the zero value of T (the target container cannot tell it from "empty")
+       notgt |-> FALSE, notgterr |-> FALSE,
        panicked |-> FALSE,
        \* the root context given to SetContext was cancelled by the client: the resolver call that is
        \* active then still has to deliver its result; once any further API call or released() follows
@@ -171,7 +172,9 @@ NewCons(kind, cb) ==
 -----------------------------------------------------------------------------
 (* Events *)
 
-PCfg(s, keep) == [s EXCEPT !.keep = keep]
+\* notgt / notgterr: the RefCount was built without a target / an error-target container (both optional)
+PCfg3(s, keep, notgt, notgterr) == [s EXCEPT !.keep = keep, !.notgt = notgt, !.notgterr = notgterr]
+PCfg(s, keep) == PCfg3(s, keep, FALSE, FALSE)
 
 \* A client call starts.  ref: the reference created (addref, consumers: = id) or released.
 PCallOp(s, id, op, cb, ref, k) ==
@@ -337,8 +340,8 @@ PLeak(s) == IF s.panicked THEN s ELSE Bad(s, {"Harness:leak"})
 Delivered(s, tgt, tgterr) ==
     LET N == Len(s.rs) IN
     /\ N >= 1 /\ Returned(s, N) /\ N \notin s.inv
-    /\ IsVal(s, N) => tgt = s.raw[N] /\ tgterr = 0          \* (a zero-valued N: raw = 0 = "empty")
-    /\ IsErr(s, N) => tgterr = N /\ tgt = 0
+    /\ IsVal(s, N) => (s.notgt \/ tgt = s.raw[N]) /\ (s.notgterr \/ tgterr = 0)          \* (a zero-valued N: raw = 0 = "empty")
+    /\ IsErr(s, N) => (s.notgterr \/ tgterr = N) /\ (s.notgt \/ tgt = 0)
     /\ \A r \in PlainHeld(s) : s.refs[r].cb =>
           /\ s.refs[r].g.r
           /\ IsVal(s, N) => s.refs[r].g.e = 0 /\ s.refs[r].g.v = s.raw[N] /\ N \in s.refs[r].gc
